@@ -1,15 +1,23 @@
 """C18 - process bus: every listener runs, in order; state follows the lifecycle.
 
-Model: lean/CpModel/Bus.lean, theorems: lean/CpProofs/C18.lean, driver: lean/Drv/C18.lean.
-Real code: a fresh `cherrypy.process.wspbus.Bus()` per case with probe listeners; `os._exit` and
-`atexit.register` are intercepted through the module globals the code looks them up in.
+Model: lean/CpModel/Bus.lean, theorems: lean/CpProofs/C18.lean + C18X.lean, driver: lean/Drv/C18.lean,
+tables regenerated from the live module: lean/CpModel/Gen/C18Tables.lean.
+Real code: a fresh (trivial subclass of) `cherrypy.process.wspbus.Bus` per case with probe listeners;
+`os._exit`, `os.execv`, `atexit.register`, `time.sleep`, `threading.Thread` are intercepted through the
+module globals the code looks them up in.
 """
+import hashlib
+import itertools
 import json
+import os
+import signal
+import sys
+import warnings
 
 from . import common
 
 PROPERTY = 'C18'
-LEAN_TARGETS = ['CpProofs.C18', 'drv_c18']
+LEAN_TARGETS = ['CpProofs.C18', 'CpProofs.C18X', 'drv_c18']
 DRIVER = 'drv_c18'
 THEOREMS = [
     'CpProofs.C18.sortByPrio_perm',
@@ -31,62 +39,96 @@ THEOREMS = [
     'CpProofs.C18.final_state_full_false',
     'CpProofs.C18.all_run_with_failing_log_false',
 ]
+X_THEOREMS = []          # filled below (second-generation theorems, CpProofs.C18X)
 TRUSTED_BASE = [
-    'os._exit / atexit / execv are outcomes of the model, not executed',
+    'os._exit / os.execv / atexit / time.sleep / threading.Thread are outcomes or inputs of the model, not executed',
     'Python set iteration order inside a priority tie is arbitrary: journals are compared modulo '
     'order inside a tie group',
 ]
 ASSUMPTIONS = [
-    'listeners are finite scripts: (un)subscribe / publish re-entrantly, then return, raise Exception, '
-    'SystemExit(code) or KeyboardInterrupt',
-    'ordering / exactly-once / lifecycle theorems cover scripts without re-entrant actions; for arbitrary '
-    're-entrant scripts the state-stability theorems (publish_state_stable_general, stop_general) hold and '
-    'the rest is covered by the correspondence stream only',
+    'listeners are finite scripts: (un)subscribe / publish / start / stop / exit / restart / graceful re-entrantly, '
+    'then return, raise Exception, SystemExit(code) or KeyboardInterrupt',
+    'wait / block / start_with_callback are modelled single-threaded (the state changes only through listeners of '
+    'the polled channel); the multi-threaded line-granular view of block() is C20',
 ]
 LEVEL = 'proof'
-TECHNIQUE = ('Lean 4 proof: refinement of Bus.publish/start/stop/exit to a declarative loop spec, by induction over the '
-             'listener list (all listener sets, priorities, failure patterns); model tied to wspbus.Bus by a '
-             'differential journal comparison')
-LEVEL_TEXT = ('Proved in Lean for every listener list and failure pattern of non-re-entrant listeners with non-raising log '
-              'listeners: publish invokes a stable-sorted permutation of the subscribers exactly once and reports exactly '
-              'the raisers; start/stop/exit journal their listeners in STARTING/STOPPING/EXITING, exit runs stop first, '
-              'returning calls end in the documented state, a failed start shuts down, a failure while exiting is '
-              'os._exit(70), SystemExit(0) after failures becomes 1. Partial: re-entrant listeners (subscribe/unsubscribe/'
-              'publish inside a listener) are modelled and compared with the real Bus on generated call sequences but not '
-              'covered by theorems; the two statements that are false on the unchanged tree are proved false (F19, F22).')
+TECHNIQUE = ('Lean 4 proof: refinement of Bus.publish/start/stop/exit to a declarative loop spec and frame / snapshot / '
+             'invariant inductions over fuel, listener list and script for re-entrant listeners; model tied to '
+             'wspbus.Bus by a differential journal comparison and by tables regenerated from the live module')
+LEVEL_TEXT = ''          # set below
 LEVEL_NOTE = ('Trusted: Lean kernel (axioms propext, Classical.choice, Quot.sound only), the hand model '
               'lean/CpModel/Bus.lean as validated by the differential run against a fresh wspbus.Bus per case, the '
-              'harness. os._exit/atexit/execv are outcomes of the model; set iteration order inside a priority tie is '
-              'arbitrary in the code, journals are compared modulo tie order.')
+              'harness. os._exit/os.execv/atexit/time.sleep/threads are outcomes or inputs of the model; set iteration '
+              'order inside a priority tie is arbitrary in the code, journals are compared modulo tie order; log '
+              'message texts are never compared.')
 RULE = ('random call sequences (<=6 calls after 0-4 subscriptions per channel over start/stop/exit/graceful/'
-        'main/log/c1/c2) with failing / exiting / re-entrant listeners, plus (thorough) an exhaustive '
-        'enumeration of small listener sets x short call sequences; a case is non-trivial when at least one '
-        'listener was invoked; distinct = distinct call-token line')
+        'main/log/c1/c2; calls: start/stop/exit/restart/graceful/publish/subscribe (priority by argument, by '
+        'attribute, by default, decorator form, re-subscription)/unsubscribe (also of unknown listeners)/atexit/'
+        'wait/block/start_with_callback) with failing / exiting / re-entrant listeners (subscribe, unsubscribe, '
+        'publish, lifecycle calls from inside a listener), plus an exhaustive enumeration of small listener sets x '
+        'short call sequences (a slice in the quick tier, all of it in the thorough tier); a case is non-trivial when '
+        'at least one listener was invoked; distinct = distinct call-token line')
 
 CHANNELS = ['start', 'stop', 'exit', 'graceful', 'main', 'log', 'c1', 'c2']
-RANK = {'start': 0, 'stop': 0, 'exit': 0, 'graceful': 0, 'main': 0, 'c1': 1, 'c2': 2, 'log': 9}
+# a listener on channel A may trigger (publish / lifecycle call) only channels of a strictly lower level:
+# every generated script terminates
+LEVELS = {'main': 7, 'graceful': 6, 'start': 5, 'stop': 4, 'exit': 3, 'c1': 2, 'c2': 1}
+METH_TOP = {'start': 5, 'stop': 4, 'exit': 4, 'restart': 4, 'graceful': 6}
+METHODS = ['start', 'stop', 'exit', 'restart', 'graceful']
 OUTS = ['ok', 'raise', 'exit0', 'exit1', 'exit3', 'kbd']
+STATE_NAMES = ('STOPPED', 'STARTING', 'STARTED', 'STOPPING', 'EXITING')
+TICKCAP = 4              # = CpModel.Bus.tickCap
+DEPTHCAP = 40
+CASE_TIMEOUT = 20.0      # seconds; a case that takes longer is reported as a hang of the code under test
 
 
 # ----------------------------------------------------------------------------------------------
 # real-code runner
 # ----------------------------------------------------------------------------------------------
-class _ProcExit(BaseException):
+class _Control(BaseException):
+    """Base of the harness's own control-flow exceptions (never caught by the code under test)."""
+
+
+class _ProcExit(_Control):
     def __init__(self, code):
         self.code = code
 
 
+class _Execv(_Control):
+    pass
+
+
+class _Hang(_Control):
+    pass
+
+
+class _Deep(_Control):
+    pass
+
+
+class _Timeout(_Control):
+    pass
+
+
 class _FakeAtexit:
-    @staticmethod
-    def register(*a, **k):
-        return None
+    def __init__(self):
+        self.handlers = []
+
+    def register(self, fn, *a, **k):
+        self.handlers.append((fn, a, k))
+        return fn
+
+    def unregister(self, fn):
+        self.handlers = [h for h in self.handlers if h[0] != fn]
 
 
 class _OsShim:
-    """`wspbus.os` with `_exit` turned into an observable outcome."""
+    """`wspbus.os` with `_exit` / `execv` turned into observable outcomes."""
 
     def __init__(self, real):
         self._real = real
+        self.environ = dict(real.environ)
+        self.chdirs = 0
 
     def __getattr__(self, name):
         return getattr(self._real, name)
@@ -95,195 +137,537 @@ class _OsShim:
     def _exit(code):
         raise _ProcExit(code)
 
+    @staticmethod
+    def execv(path, args):
+        raise _Execv()
 
-def run_real(tokens):
+    execve = execv
+
+    def chdir(self, path):
+        self.chdirs += 1
+
+
+class _TimeShim:
+    """`wspbus.time`: sleeping takes no time; the n-th sleep of a call ends as the plan says."""
+
+    def __init__(self, real):
+        self._real = real
+        self.n = 0
+        self.plan = []
+
+    def __getattr__(self, name):
+        return getattr(self._real, name)
+
+    def reset(self, plan=()):
+        self.n = 0
+        self.plan = list(plan)
+
+    def sleep(self, interval=0):
+        self.n += 1
+        if self.n > TICKCAP:
+            raise _Hang()
+        how = self.plan[self.n - 1] if self.n - 1 < len(self.plan) else 'o'
+        if how == 'k':
+            raise KeyboardInterrupt()
+        if how == 'i':
+            raise IOError(4, 'Interrupted function call')
+        if how.startswith('x'):
+            raise SystemExit(int(how[1:]))
+
+
+class _FakeThread:
+    made = None
+
+    def __init__(self, group=None, target=None, name=None, args=(), kwargs=None, daemon=None):
+        self.target, self.args, self.kwargs = target, tuple(args), dict(kwargs or {})
+        self.name = name or 'Thread-1'
+        self.daemon = bool(daemon)
+        self.started = False
+        _FakeThread.made.append(self)
+
+    def start(self):
+        self.started = True
+
+    def join(self, timeout=None):
+        return None
+
+    def is_alive(self):
+        return False
+
+
+class _ThreadingShim:
+    def __init__(self, real):
+        self._real = real
+        self.Thread = _FakeThread
+
+    def __getattr__(self, name):
+        return getattr(self._real, name)
+
+    @staticmethod
+    def enumerate():
+        return []
+
+
+class _SysShim:
+    def __init__(self, real, platform):
+        self._real = real
+        self.platform = platform
+
+    def __getattr__(self, name):
+        return getattr(self._real, name)
+
+
+def parse_sub(f):
+    """fields of a `sub` token -> (ch, lid, arg, attr, deco, out, acts)."""
+    if len(f) == 6:
+        return f[1], int(f[2]), int(f[3]), None, False, f[4], ([] if f[5] == '-' else f[5].split('+'))
+    arg, deco = f[3], False
+    if arg.startswith('d'):
+        arg, deco = arg[1:], True
+    return (f[1], int(f[2]), None if arg == 'n' else int(arg), None if f[4] == 'n' else int(f[4]), deco,
+            f[5], ([] if f[6] == '-' else f[6].split('+')))
+
+
+def eff_prio(arg, attr):
+    """The priority a listener is subscribed with, as documented: argument, else attribute, else 50."""
+    return arg if arg is not None else (attr if attr is not None else 50)
+
+
+def variant(tokens):
+    return int(hashlib.sha1(' '.join(tokens).encode()).hexdigest()[:4], 16)
+
+
+def run_real(tokens, cov=None):
     """Execute one case on the real Bus.  Returns the observation dict."""
-    from cherrypy.process import wspbus
     import os as _os
-    saved = (wspbus.os, wspbus.atexit)
-    wspbus.os = _OsShim(_os)
-    wspbus.atexit = _FakeAtexit
+    import time as _time
+    import threading as _threading
     try:
-        bus = wspbus.Bus()
-        names = {id(getattr(wspbus.states, n)): n for n in
-                 ('STOPPED', 'STARTING', 'STARTED', 'STOPPING', 'EXITING')}
-        journal = []          # (ch, id, state, prio)
-        pubs = []             # publish records, for the oracle
-        stack = []
-        probes = {}
-        static_prio = {}
+        from cherrypy.process import wspbus
+    except Exception as e:      # the code under test does not even import
+        return _broken('import', e)
+    var = variant(tokens)
+    saved = {k: getattr(wspbus, k, None) for k in ('os', 'atexit', 'time', 'threading', 'sys')}
+    fake_atexit = _FakeAtexit()
+    tshim = _TimeShim(_time)
+    wspbus.os = _OsShim(_os)
+    wspbus.atexit = fake_atexit
+    wspbus.time = tshim
+    wspbus.threading = _ThreadingShim(_threading)
+    if var % 5 == 0:
+        wspbus.sys = _SysShim(sys, 'win32')
+    _FakeThread.made = []
+    old_alarm = None
+    if hasattr(signal, 'setitimer'):
+        def on_alarm(signum, frame):
+            raise _Timeout()
+        try:
+            old_alarm = signal.signal(signal.SIGALRM, on_alarm)
+            signal.setitimer(signal.ITIMER_REAL, CASE_TIMEOUT)
+        except ValueError:      # not in the main thread
+            old_alarm = None
+    if cov is not None:
+        cov.start(wspbus)
+    try:
+        return _run_case(tokens, wspbus, fake_atexit, tshim, var)
+    except _Timeout:
+        return _broken('timeout', None)
+    finally:
+        if cov is not None:
+            cov.stop()
+        if old_alarm is not None:
+            signal.setitimer(signal.ITIMER_REAL, 0)
+            signal.signal(signal.SIGALRM, old_alarm)
+        for k, v in saved.items():
+            if v is not None:
+                setattr(wspbus, k, v)
 
-        def state_name():
-            return names.get(id(bus.state), repr(bus.state))
 
-        class Probe:
-            def __init__(self, ch, lid, prio, out, acts):
-                self.ch, self.lid, self.prio, self.out, self.acts = ch, lid, prio, out, acts
+def _broken(what, e):
+    r = 'timeout' if what == 'timeout' else 'exc:%s' % type(e).__name__
+    return {'results': [[r]], 'journal': [], 'state': '?', 'execv': 0, 'pubs': [], 'states_after': ['?'],
+            'trace': [], 'warns': 0, 'lc': [False], 'broken': what}
 
-            def __call__(self, *a, **k):
-                journal.append((self.ch, self.lid, state_name(), self.prio))
-                if stack:
-                    stack[-1]['invoked'].append(self.lid)
-                me = stack[-1] if stack else None
-                try:
-                    for act in self.acts:
-                        f = act.split('~')
-                        if f[0] == 's':
-                            p = get_probe(f[1], int(f[2]), int(f[3]), f[4], [])
-                            do_subscribe(f[1], p, int(f[3]))
-                        elif f[0] == 'u':
-                            p = probes.get((f[1], int(f[2])))
-                            if p is not None:
-                                bus.unsubscribe(f[1], p)
-                        elif f[0] == 'p':
-                            bus.publish(f[1])
-                except wspbus.ChannelFailures:
-                    if me is not None:
-                        me['raised'].append(self.lid)
-                    raise
-                if self.out == 'raise':
-                    if me is not None:
-                        me['raised'].append(self.lid)
-                    raise ValueError('probe %d' % self.lid)
-                if self.out == 'kbd':
-                    raise KeyboardInterrupt()
-                if self.out.startswith('exit'):
-                    raise SystemExit(int(self.out[4:]))
-                return self.lid
 
-        def get_probe(ch, lid, prio, out, acts):
-            key = (ch, lid)
-            if key not in probes:
-                probes[key] = Probe(ch, lid, prio, out, acts)
-            return probes[key]
+def _run_case(tokens, wspbus, fake_atexit, tshim, var):
+    names = {}
+    for n in STATE_NAMES:
+        s = getattr(wspbus.states, n, None)
+        if s is not None:
+            names[id(s)] = n
+    journal = []          # (ch, id, state, prio at publish entry, depth)
+    pubs = []             # publish records, for the oracle
+    stack = []
+    probes = {}
+    shadow = {}           # channel -> {probe: priority}: who is subscribed according to the API calls made
+    trace = []
+    cur = {'call': None, 'lc': False}
+    box = {}
 
-        def do_subscribe(ch, p, prio):
-            # the three ways a priority reaches the bus: explicit argument, the callback's
-            # `priority` attribute, or the default (50) when neither is given
-            route = p.lid % 3
-            if route == 1:
-                p.priority = prio
-                bus.subscribe(ch, p)
-            elif route == 2 and prio == 50:
-                if hasattr(p, 'priority'):
-                    del p.priority
-                bus.subscribe(ch, p)
-            else:
-                bus.subscribe(ch, p, priority=prio)
+    def state_name():
+        st = box['bus'].state
+        return names.get(id(st), repr(st))
 
-        cls_publish = wspbus.Bus.publish
+    class Probe:
+        def __init__(self, ch, lid, out, acts):
+            self.ch, self.lid, self.out, self.acts = ch, lid, out, acts
 
-        def publish(channel, *a, **k):
+        def __repr__(self):
+            return '<probe %s.%d>' % (self.ch, self.lid)
+
+        def __call__(self, *a, **k):
+            bus = box['bus']
+            me = stack[-1] if stack else None
+            prio = me['entry'].get(self.lid, (None,))[0] if me is not None and me['ch'] == self.ch else None
+            if prio is None:
+                prio = shadow.get(self.ch, {}).get(self, -1)
+            journal.append((self.ch, self.lid, state_name(), prio, len(stack)))
+            if me is not None:
+                me['invoked'].append(self.lid)
+            try:
+                for act in self.acts:
+                    f = act.split('~')
+                    if f[0] == 's':
+                        p = get_probe(f[1], int(f[2]), f[4], [])
+                        bus.subscribe(f[1], p, priority=int(f[3]))
+                    elif f[0] == 'u':
+                        bus.unsubscribe(f[1], get_probe(f[1], int(f[2]), 'ok', []))
+                    elif f[0] == 'p':
+                        bus.publish(f[1])
+                    elif f[0] == 'c':
+                        cur['lc'] = True
+                        getattr(bus, f[1])()
+            except wspbus.ChannelFailures:
+                if me is not None:
+                    me['raised'].append(self.lid)
+                raise
+            if self.out == 'raise':
+                if me is not None:
+                    me['raised'].append(self.lid)
+                raise ValueError('probe %d' % self.lid)
+            if self.out == 'kbd':
+                raise KeyboardInterrupt()
+            if self.out.startswith('exit'):
+                raise SystemExit(int(self.out[4:]))
+            return self.lid
+
+    def get_probe(ch, lid, out, acts):
+        key = (ch, lid)
+        if key not in probes:
+            probes[key] = Probe(ch, lid, out, acts)
+        return probes[key]
+
+    def classify(e):
+        if isinstance(e, wspbus.ChannelFailures):
+            try:
+                n = len(e.get_instances())
+            except Exception:
+                n = -1
+            return ('fail', n)
+        if isinstance(e, SystemExit):
+            return 'sysexit%s' % (e.code,)
+        if isinstance(e, KeyboardInterrupt):
+            return 'kbd'
+        if isinstance(e, _ProcExit):
+            return 'procexit%s' % (e.code,)
+        if isinstance(e, _Execv):
+            return 'execv'
+        if isinstance(e, _Hang):
+            return 'hang'
+        if isinstance(e, (_Deep, RecursionError)):
+            return 'deep'
+        if isinstance(e, _Timeout):
+            raise e
+        if isinstance(e, IOError) and e.args[:1] == (4,):
+            return 'ioerr'
+        return 'exc:%s' % type(e).__name__
+
+    class TBus(wspbus.Bus):
+        def __setattr__(self, key, value):
+            if key == 'state' and 'bus' in box:
+                trace.append(names.get(id(value), repr(value)))
+            object.__setattr__(self, key, value)
+
+        def subscribe(self, *a, **k):
+            r = wspbus.Bus.subscribe(self, *a, **k)
+            channel = a[0] if a else k.get('channel')
+            callback = a[1] if len(a) > 1 else k.get('callback')
+            priority = a[2] if len(a) > 2 else k.get('priority')
+            if callback is not None and isinstance(callback, Probe):
+                d = shadow.setdefault(channel, {})
+                new = callback not in d
+                d[callback] = eff_prio(priority, getattr(callback, 'priority', None))
+                for rec in stack:
+                    if rec['ch'] == channel:
+                        rec['added' if new else 'reprio'].add(callback.lid)
+            return r
+
+        def unsubscribe(self, *a, **k):
+            r = wspbus.Bus.unsubscribe(self, *a, **k)
+            channel = a[0] if a else k.get('channel')
+            callback = a[1] if len(a) > 1 else k.get('callback')
+            if isinstance(callback, Probe) and callback in shadow.get(channel, {}):
+                del shadow[channel][callback]
+                for rec in stack:
+                    if rec['ch'] == channel:
+                        rec['removed'].add(callback.lid)
+            return r
+
+        def publish(self, channel, *a, **k):
+            if len(stack) >= DEPTHCAP:
+                raise _Deep()
             rec = {'ch': channel, 'state': state_name(), 'depth': len(stack),
-                   'entry': sorted((p.prio, p.lid, p.out, bool(p.acts))
-                                   for p in bus.listeners.get(channel, ()) if isinstance(p, Probe)),
-                   'invoked': [], 'raised': [], 'result': None, 'call': cur_call[0]}
+                   'entry': {p.lid: (pr, p.out, bool(p.acts)) for p, pr in shadow.get(channel, {}).items()},
+                   'invoked': [], 'raised': [], 'added': set(), 'removed': set(), 'reprio': set(),
+                   'result': None, 'call': cur['call'], 'lc': cur['lc']}
             pubs.append(rec)
             stack.append(rec)
             try:
-                r = cls_publish(bus, channel, *a, **k)
+                r = wspbus.Bus.publish(self, channel, *a, **k)
                 rec['result'] = 'ret'
                 return r
-            except wspbus.ChannelFailures as e:
-                rec['result'] = 'fail'
-                rec['nfail'] = len(e.get_instances())
-                raise
-            except SystemExit as e:
-                rec['result'] = 'sysexit%s' % e.code
-                raise
-            except KeyboardInterrupt:
-                rec['result'] = 'kbd'
-                raise
-            except _ProcExit:
-                rec['result'] = 'procexit'
+            except BaseException as e:
+                c = classify(e)
+                if isinstance(c, tuple):
+                    rec['result'], rec['nfail'] = 'fail', c[1]
+                else:
+                    rec['result'] = 'procexit' if c.startswith('procexit') else c
                 raise
             finally:
+                rec['lc_end'] = cur['lc']
                 stack.pop()
 
-        bus.publish = publish
-        cur_call = [None]
-        results = []
-        states_after = []
-        for ci, tok in enumerate(tokens):
-            cur_call[0] = ci
-            f = tok.split(':')
+    try:
+        bus = TBus()
+    except Exception as e:
+        return _broken('construct', e)
+    box['bus'] = bus
+    bus.max_cloexec_files = 0 if var % 2 else 7
+    bus._set_cloexec = lambda: None
+    if var % 3 == 0:
+        def no_true_argv():
+            raise NotImplementedError
+        bus._get_true_argv = no_true_argv
+
+    def outcome(fn):
+        try:
+            fn()
+            return 'ret'
+        except BaseException as e:
+            return classify(e)
+
+    results, states_after, lcs = [], [], []
+    warns = [0]
+    for ci, tok in enumerate(tokens):
+        cur['call'], cur['lc'] = ci, False
+        tshim.reset()
+        f = tok.split(':')
+        if f[0] == 'sub':
+            ch, lid, arg, attr, deco, out, acts = parse_sub(f)
+            p = get_probe(ch, lid, out, acts)
+            if attr is None:
+                if hasattr(p, 'priority'):
+                    del p.priority
+            else:
+                p.priority = attr
+            if deco:
+                rs = [outcome(lambda: (bus.subscribe(ch, priority=arg) if arg is not None
+                                       else bus.subscribe(ch))(p))]
+            elif arg is None:
+                rs = [outcome(lambda: bus.subscribe(ch, p))]
+            elif lid % 2:
+                rs = [outcome(lambda: bus.subscribe(ch, p, arg))]
+            else:
+                rs = [outcome(lambda: bus.subscribe(ch, p, priority=arg))]
+        elif f[0] == 'unsub':
+            rs = [outcome(lambda: bus.unsubscribe(f[1], get_probe(f[1], int(f[2]), 'ok', [])))]
+        elif f[0] == 'pub':
+            rs = [outcome(lambda: bus.publish(f[1]))]
+        elif f[0] == 'atexit':
+            rs = []
+            with warnings.catch_warnings(record=True) as wlist:
+                warnings.simplefilter('always')
+                for fn, a, k in reversed(list(fake_atexit.handlers)):
+                    r = outcome(lambda: fn(*a, **k))
+                    rs.append(r)
+                    if isinstance(r, str) and (r.startswith('procexit') or r in ('execv', 'hang', 'deep')):
+                        break
+            warns[0] += sum(1 for w in wlist if issubclass(w.category, RuntimeWarning))
+        elif f[0] == 'wait':
+            targets = [getattr(wspbus.states, n) for n in f[1].split('+')]
+            target = targets[0] if len(targets) == 1 else (tuple(targets) if var % 2 else list(targets))
+            chan = None if f[2] == 'none' else f[2]
+            tshim.reset([] if f[3] == '-' else f[3].split('.'))
+            rs = [outcome(lambda: bus.wait(target, interval=0.01, channel=chan))]
+        elif f[0] == 'block':
+            tshim.reset([] if f[1] == '-' else f[1].split('.'))
+            rs = [outcome(lambda: bus.block(interval=0.01))]
+        elif f[0] == 'swc':
+            called = []
+            _FakeThread.made[:] = []
+            r1 = outcome(lambda: bus.start_with_callback(lambda *a, **k: called.append((a, k)),
+                                                         args=(1,), kwargs={'x': 2}))
+            rs = [r1]
+            if not (isinstance(r1, str) and (r1.startswith('procexit') or r1 in ('execv', 'hang', 'deep'))):
+                tshim.reset()
+                r2 = 'ret'
+                for t in list(_FakeThread.made):
+                    if t.started and t.target is not None:
+                        r2 = outcome(lambda: t.target(*t.args, **t.kwargs))
+                if r2 == 'ret' and called != [((1,), {'x': 2})]:
+                    r2 = 'callback-not-called' if not called else 'callback-wrong-args'
+                rs.append(r2)
+        elif f[0] in METHODS:
+            rs = [outcome(getattr(bus, f[0]))]
+        else:
+            raise common.HarnessError('unknown token %r' % tok)
+        results.append(rs)
+        states_after.append(state_name())
+        lcs.append(cur['lc'])
+        if any(isinstance(r, str) and (r.startswith('procexit') or r in ('execv', 'hang', 'deep')) for r in rs):
+            break
+    return {'results': results, 'journal': journal, 'state': state_name(),
+            'execv': 1 if bus.execv else 0, 'pubs': pubs, 'states_after': states_after,
+            'trace': trace, 'warns': warns[0], 'lc': lcs, 'atexit': len(fake_atexit.handlers)}
+
+
+# ----------------------------------------------------------------------------------------------
+# line coverage of the anchored functions during the correspondence stream
+# ----------------------------------------------------------------------------------------------
+ANCHORED = ['Bus.publish', 'Bus.subscribe', 'Bus.unsubscribe', 'Bus.start', 'Bus.stop', 'Bus.exit', 'Bus.restart',
+            'Bus.graceful', 'Bus.log', 'Bus._do_execv', 'Bus._clean_exit', 'Bus.wait', 'Bus.block',
+            'Bus.start_with_callback', 'ChannelFailures.__init__', 'ChannelFailures.handle_exception',
+            'ChannelFailures.get_instances', 'ChannelFailures.__bool__']
+
+
+class Coverage:
+    TOOL = 3
+
+    def __init__(self):
+        self.codes = {}
+        self.hit = set()
+        self.ok = hasattr(sys, 'monitoring')
+        self.active = False
+
+    def _codes(self, wspbus):
+        if self.codes:
+            return
+        for qn in ANCHORED:
+            obj = wspbus
             try:
-                if f[0] == 'sub':
-                    acts = [] if f[5] == '-' else f[5].split('+')
-                    p = get_probe(f[1], int(f[2]), int(f[3]), f[4], acts)
-                    p.prio = int(f[3])      # a top-level re-subscribe overwrites the priority
-                    do_subscribe(f[1], p, int(f[3]))
-                elif f[0] == 'unsub':
-                    p = probes.get((f[1], int(f[2])))
-                    if p is not None:
-                        bus.unsubscribe(f[1], p)
-                elif f[0] == 'pub':
-                    bus.publish(f[1])
-                else:
-                    getattr(bus, f[0])()
-                results.append('ret')
-            except wspbus.ChannelFailures as e:
-                ids = sorted(int(str(x.args[0]).split()[-1]) if isinstance(x, ValueError)
-                             else -1 for x in e.get_instances())
-                results.append(('fail', ids, len(e.get_instances())))
-            except SystemExit as e:
-                results.append('sysexit%s' % e.code)
-            except KeyboardInterrupt:
-                results.append('kbd')
-            except _ProcExit as e:
-                results.append('procexit%s' % e.code)
-                states_after.append(state_name())
-                break
-            except RecursionError:
-                results.append('outoffuel')
-            states_after.append(state_name())
-        return {'results': results, 'journal': journal, 'state': state_name(),
-                'execv': 1 if bus.execv else 0, 'pubs': pubs, 'states_after': states_after}
-    finally:
-        wspbus.os, wspbus.atexit = saved
+                for part in qn.split('.'):
+                    obj = vars(obj)[part] if isinstance(obj, type) else getattr(obj, part)
+                fn = getattr(obj, '__func__', obj)
+                self.codes[fn.__code__] = qn
+                for c in fn.__code__.co_consts:      # nested functions (start_with_callback._callback)
+                    if hasattr(c, 'co_code'):
+                        self.codes[c] = qn + '.' + c.co_name
+            except (AttributeError, KeyError):
+                continue
+
+    def start(self, wspbus):
+        if not self.ok:
+            return
+        self._codes(wspbus)
+        mon = sys.monitoring
+        try:
+            mon.use_tool_id(self.TOOL, 'c18cov')
+        except ValueError:
+            self.ok = False
+            return
+        self.active = True
+
+        def on_line(code, line):
+            self.hit.add((code, line))
+            return mon.DISABLE
+        mon.register_callback(self.TOOL, mon.events.LINE, on_line)
+        for c in self.codes:
+            mon.set_local_events(self.TOOL, c, mon.events.LINE)
+
+    def stop(self):
+        if not self.active:
+            return
+        mon = sys.monitoring
+        for c in self.codes:
+            mon.set_local_events(self.TOOL, c, 0)
+        mon.register_callback(self.TOOL, mon.events.LINE, None)
+        mon.free_tool_id(self.TOOL)
+        self.active = False
+
+    def missing(self):
+        import linecache
+        out = []
+        for c, qn in self.codes.items():
+            lines = sorted({l for _, _, l in c.co_lines() if l is not None and l != c.co_firstlineno})
+            for l in lines:
+                if (c, l) not in self.hit:
+                    src = linecache.getline(c.co_filename, l).strip()
+                    if src.startswith(('"""', "'''")) or not src:
+                        continue
+                    out.append('%s:%d: %s' % (qn, l, src[:70]))
+        return out
 
 
 # ----------------------------------------------------------------------------------------------
 # canonical form shared by both sides
 # ----------------------------------------------------------------------------------------------
 def canon_journal(entries):
-    """Drop log-channel invocations; sort maximal runs of equal (channel, state, prio) by id."""
+    """Drop log-channel invocations; sort maximal runs of equal (channel, state, prio, depth) by id."""
     es = [e for e in entries if e[0] != 'log']
     out, i = [], 0
     while i < len(es):
         j = i
-        while j < len(es) and (es[j][0], es[j][2], es[j][3]) == (es[i][0], es[i][2], es[i][3]):
+        while j < len(es) and (es[j][0], es[j][2], es[j][3], es[j][4]) == (es[i][0], es[i][2], es[i][3], es[i][4]):
             j += 1
         out += sorted(es[i:j], key=lambda e: e[1])
         i = j
-    return ['%s.%d.%s' % (e[0], e[1], e[2]) for e in out]
+    return ['%s.%d.%s.%d.%d' % (e[0], e[1], e[2], e[3], e[4]) for e in out]
 
 
-def canon_real(obs):
-    rs = []
-    for r in obs['results']:
-        if isinstance(r, tuple):
-            # nested ChannelFailures instances count as the failing outer listener: compare the count
-            rs.append('fail%d' % r[2])
-        else:
-            rs.append(r)
-    return {'R': rs, 'J': canon_journal(obs['journal']), 'S': obs['state'], 'X': obs['execv']}
+def dedup(xs):
+    out = []
+    for x in xs:
+        if not out or out[-1] != x:
+            out.append(x)
+    return out
 
 
-def canon_model(line):
+def canon_results(tokens, per_call):
+    out = []
+    for ci, rs in enumerate(per_call):
+        rs = ['fail%d' % r[1] if isinstance(r, tuple) else r for r in rs]
+        if tokens[ci] == 'atexit':
+            # how many handlers are registered is not an observable of the property: keep what they did
+            rs = [r for r in rs if r != 'ret'] or ['ret']
+        out.append(';'.join(rs))
+    return out
+
+
+def canon_real(tokens, obs):
+    return {'R': canon_results(tokens, obs['results']), 'J': canon_journal(obs['journal']), 'S': obs['state'],
+            'X': obs['execv'], 'T': dedup(obs['trace']), 'W': 1 if obs['warns'] else 0}
+
+
+def canon_model(tokens, line):
     parts = dict(p.split('=', 1) for p in line.split(' '))
-    rs = []
-    for r in ([] if parts['R'] == '-' else parts['R'].split(',')):
-        if r.startswith('fail['):
-            ids = [x for x in r[5:-1].split('/') if x]
-            rs.append('fail%d' % len(ids))
-        else:
-            rs.append(r)
+    per_call = []
+    for call in ([] if parts['R'] == '-' else parts['R'].split(',')):
+        rs = []
+        for r in call.split(';'):
+            if not r:
+                continue
+            if r.startswith('fail['):
+                rs.append(('fail', len([x for x in r[5:-1].split('/') if x])))
+            else:
+                rs.append(r)
+        per_call.append(rs)
     js = []
     for e in ([] if parts['J'] == '-' else parts['J'].split(',')):
-        ch, lid, st, prio = e.split('.')
-        js.append((ch, int(lid), st, int(prio)))
-    return {'R': rs, 'J': canon_journal(js), 'S': parts['S'], 'X': int(parts['X'])}
+        ch, lid, st, prio, depth = e.split('.')
+        js.append((ch, int(lid), st, int(prio), int(depth)))
+    return {'R': canon_results(tokens, per_call), 'J': canon_journal(js), 'S': parts['S'], 'X': int(parts['X']),
+            'T': dedup([] if parts['T'] == '-' else parts['T'].split(',')), 'W': 1 if int(parts['W']) else 0,
+            'O': parts['O']}
 
 
 # ----------------------------------------------------------------------------------------------
@@ -298,52 +682,67 @@ def oracle(tokens, obs):
     log_raisers = set()
     for t in tokens:
         f = t.split(':')
-        if f[0] == 'sub' and f[1] == 'log' and f[4] != 'ok':
+        if f[0] == 'sub' and f[1] == 'log' and f[-2] != 'ok':
             log_raisers.add(int(f[2]))
-    invoked_ids = {e[1] for e in obs['journal']}
-    logfail = bool(log_raisers & invoked_ids)
+        if f[0] == 'sub' and any(a.startswith('s~log~') and not a.endswith('~ok') for a in f[-1].split('+')):
+            log_raisers.add(-1)
+    invoked_ids = {e[1] for e in obs['journal'] if e[0] == 'log'}
+    logfail = bool(log_raisers & (invoked_ids | {-1}))
 
     def sig(s):
         return 'F22:failing_log_listener' if logfail else s
 
+    # anything but the documented exceptions leaving a bus call, or a call that does not come back
+    for ci, rs in enumerate(obs['results']):
+        for r in rs:
+            if isinstance(r, str) and (r.startswith('exc:') or r in ('timeout', 'callback-wrong-args')):
+                m = tokens[ci].split(':')[0] if ci < len(tokens) else '?'
+                bad.append(('%s ended with %s instead of returning / ChannelFailures / SystemExit / '
+                            'KeyboardInterrupt' % (tokens[ci] if ci < len(tokens) else '?', r),
+                            'unexpected_exception:%s:%s' % (m, r)))
+    if obs.get('broken'):
+        return bad
+
     # (a) every subscribed listener exactly once, ascending priority, failures reported collectively
     for p in obs['pubs']:
-        entry_ids = [x[1] for x in p['entry']]
-        outs = {x[1]: x[2] for x in p['entry']}
-        prio = {x[1]: x[0] for x in p['entry']}
-        inv = p['invoked'][:len(p['invoked'])]
-        # only the listeners invoked by this publish itself (nested publishes append to their own record)
+        entry = p['entry']
+        entry_ids = sorted(entry)
+        inv = p['invoked']
+        must = set(entry_ids) - p['removed']
+        may = set(entry_ids) | p['added']
+        stable = [i for i in inv if i in entry and i not in p['reprio']]
+        pr = [entry[i][0] for i in stable]
         if p['result'] in ('ret', 'fail'):
-            aborting = [i for i in entry_ids if outs[i] in ('kbd',) or outs[i].startswith('exit')]
+            aborting = [i for i in entry_ids if entry[i][1] == 'kbd' or entry[i][1].startswith('exit')]
             if aborting:
                 continue    # cannot have completed normally unless the aborting listener was nested-safe
-            if sorted(inv) != sorted(entry_ids):
-                bad.append(('publish(%s) invoked %s but %s were subscribed at entry (result %s)'
-                            % (p['ch'], inv, entry_ids, p['result']), sig('not_all_listeners_run')))
+            if len(set(inv)) != len(inv) or not (must <= set(inv) <= may):
+                bad.append(('publish(%s) invoked %s but %s were subscribed at entry (removed meanwhile: %s, '
+                            'added meanwhile: %s; result %s)'
+                            % (p['ch'], inv, entry_ids, sorted(p['removed']), sorted(p['added']), p['result']),
+                            sig('not_all_listeners_run')))
                 continue
-            pr = [prio[i] for i in inv]
             if pr != sorted(pr):
-                bad.append(('publish(%s) order %s not ascending in priority' % (p['ch'], list(zip(inv, pr))),
+                bad.append(('publish(%s) order %s not ascending in priority' % (p['ch'], list(zip(stable, pr))),
                             sig('priority_order')))
-            simple_fail = [i for i in entry_ids if outs[i] == 'raise']
-            has_acts = any(x[3] for x in p['entry'])
-            if not has_acts:
+            simple_fail = [i for i in entry_ids if entry[i][1] == 'raise']
+            has_acts = any(x[2] for x in entry.values())
+            if not has_acts and not p['added'] and not p['removed']:
                 if bool(simple_fail) != (p['result'] == 'fail'):
                     bad.append(('publish(%s): failing listeners %s but result %s'
                                 % (p['ch'], simple_fail, p['result']), sig('failures_not_reported')))
                 elif p['result'] == 'fail' and p.get('nfail') != len(simple_fail):
-                    bad.append(('publish(%s): %d failures reported, %d listeners failed'
+                    bad.append(('publish(%s): %s failures reported, %d listeners failed'
                                 % (p['ch'], p.get('nfail'), len(simple_fail)), sig('failures_not_reported')))
         else:
             # aborted by SystemExit / KeyboardInterrupt / process exit: a prefix, still in order, no repeats
-            if len(set(inv)) != len(inv) or not set(inv) <= set(entry_ids):
+            if len(set(inv)) != len(inv) or not set(inv) <= may:
                 bad.append(('publish(%s) invoked %s, subscribed %s' % (p['ch'], inv, entry_ids),
                             sig('listener_twice_or_foreign')))
-            pr = [prio[i] for i in inv if i in prio]
             if pr != sorted(pr):
                 bad.append(('publish(%s) order not ascending' % p['ch'], sig('priority_order')))
         # (b) start/stop/exit listeners see STARTING/STOPPING/EXITING when the bus method publishes
-        if p['depth'] == 0 and p['call'] is not None:
+        if p['depth'] == 0 and p['call'] is not None and not p['lc']:
             method = tokens[p['call']].split(':')[0]
             if method in ('start', 'stop', 'exit', 'restart') and p['ch'] in OWN:
                 want = OWN[p['ch']][1]
@@ -355,17 +754,25 @@ def oracle(tokens, obs):
         if ci >= len(obs['results']):
             break
         method = tok.split(':')[0]
-        res = obs['results'][ci]
+        rs = obs['results'][ci]
+        res = rs[0] if rs else 'ret'
         after = obs['states_after'][ci]
         mine = [p for p in obs['pubs'] if p['call'] == ci]
         top = [p for p in mine if p['depth'] == 0 and p['ch'] != 'log']
         chans = [p['ch'] for p in top]
         any_exc_failure = any(p['result'] == 'fail' for p in mine)
+        lc = obs['lc'][ci]
         # (c) exit always runs the stop listeners before the exit listeners
-        if method in ('exit', 'restart'):
-            if 'exit' in chans and ('stop' not in chans or chans.index('stop') > chans.index('exit')):
-                bad.append(('%s(): exit listeners ran without/before stop listeners: %s' % (method, chans),
-                            sig('exit_before_stop')))
+        if 'exit' in chans and ('stop' not in chans or chans.index('stop') > chans.index('exit')):
+            bad.append(('%s: exit listeners ran without/before stop listeners: %s' % (method, chans),
+                        sig('exit_before_stop')))
+        # SystemExit(0) after earlier failures must become non-zero
+        for p in mine:
+            if p['result'] == 'sysexit0' and p['raised']:
+                bad.append(('SystemExit(0) left publish(%s) although listeners had failed' % p['ch'],
+                            sig('sysexit_zero_after_failure')))
+        if lc:
+            continue    # a listener called start/stop/exit itself: outside the statement's quantifier
         # (d) final states
         if res == 'ret':
             want = {'start': 'STARTED', 'stop': 'STOPPED', 'exit': 'EXITING', 'restart': 'EXITING'}.get(method)
@@ -395,22 +802,41 @@ def oracle(tokens, obs):
             if not aborted and not (isinstance(res, str) and res.startswith('procexit') and res != 'procexit0'):
                 bad.append(('listener failed during %s() but result is %s' % (method, res),
                             sig('exit_failure_swallowed')))
-        # SystemExit(0) after earlier failures must become non-zero
-        for p in mine:
-            if p['result'] == 'sysexit0':
-                if p['raised']:
-                    bad.append(('SystemExit(0) left publish(%s) although listeners had failed' % p['ch'],
-                                sig('sysexit_zero_after_failure')))
     return bad
 
 
 # ----------------------------------------------------------------------------------------------
 # generators
 # ----------------------------------------------------------------------------------------------
+def sub_token(l):
+    arg = 'n' if l['arg'] is None else str(l['arg'])
+    return 'sub:%s:%d:%s%s:%s:%s:%s' % (l['ch'], l['id'], 'd' if l['deco'] else '', arg,
+                                         'n' if l['attr'] is None else l['attr'], l['out'],
+                                         '+'.join(l['acts']) or '-')
+
+
+def gen_prio_route(rng, l, prio):
+    """Make listener `l` reach priority `prio` by one of the routes the code offers."""
+    routes = ['arg', 'arg+attr', 'attr']
+    if prio == 50:
+        routes += ['default', 'default']
+    r = rng.choice(routes)
+    l['deco'] = rng.random() < 0.15
+    if r == 'arg':
+        l['arg'], l['attr'] = prio, None
+    elif r == 'arg+attr':
+        l['arg'], l['attr'] = prio, rng.choice([0, 5, 50, 77])     # the argument wins, also when it is 0
+    elif r == 'attr':
+        l['arg'], l['attr'] = None, prio
+    else:
+        l['arg'], l['attr'] = None, None
+
+
 def gen_case(rng, big=False):
     nid = [0]
     logfail = rng.random() < 0.12
-    listeners = []     # (ch, id, prio, out, acts)
+    reentry = rng.random() < 0.45
+    listeners = []
     for ch in CHANNELS:
         if ch == 'log':
             n = rng.choice([0, 0, 1, 2])
@@ -418,70 +844,128 @@ def gen_case(rng, big=False):
             n = rng.choice([0, 1, 1, 2, 2, 3, 4] if not big else [2, 3, 4, 5, 6])
         for _ in range(n):
             nid[0] += 1
-            prio = rng.choice([10, 50, 50, 90])
+            lid = nid[0]
+            prio = rng.choice([0, 10, 50, 50, 90])
+            acts = []
             if ch == 'log':
                 out = rng.choice(['raise', 'ok']) if logfail else 'ok'
-                acts = []
             else:
                 out = rng.choices(OUTS, weights=[60, 25, 3, 3, 2, 4])[0]
-                acts = []
-                if rng.random() < 0.2:
+                if reentry and rng.random() < 0.3:
                     for _ in range(rng.choice([1, 1, 2])):
-                        kind = rng.choice('sup')
+                        kind = rng.choice('supcco')
                         if kind == 's':
                             nid[0] += 1
-                            tch = rng.choice([c for c in CHANNELS if c != 'log'])
-                            acts.append('s~%s~%d~%d~%s' % (tch, 100 + nid[0], 100 + nid[0],
+                            tch = rng.choice([c for c in CHANNELS if c != 'log'] + [ch])
+                            acts.append('s~%s~%d~%d~%s' % (tch, 100 + nid[0], rng.choice([1, 100 + nid[0]]),
                                                            rng.choice(['ok', 'raise'])))
-                        elif kind == 'u' and listeners:
-                            t = rng.choice(listeners)
-                            acts.append('u~%s~%d' % (t[0], t[1]))
+                        elif kind == 'u':
+                            pool = [t for t in listeners if t['ch'] != 'log']
+                            if pool and rng.random() < 0.8:
+                                t = rng.choice(pool)
+                                acts.append('u~%s~%d' % (t['ch'], t['id']))
+                            else:
+                                acts.append('u~%s~%d' % (ch, lid + rng.choice([0, 1, 2])))   # itself / a later one
+                        elif kind == 'p':
+                            lower = [c for c in LEVELS if LEVELS[c] < LEVELS[ch]]
+                            if lower:
+                                acts.append('p~%s' % rng.choice(lower))
+                        elif kind == 'c':
+                            ms = [m for m in METHODS if METH_TOP[m] < LEVELS[ch]]
+                            if ms:
+                                acts.append('c~%s' % rng.choice(ms))
                         else:
-                            higher = [c for c in ('c1', 'c2') if RANK[c] > RANK[ch]]
-                            if higher:
-                                acts.append('p~%s' % rng.choice(higher))
-            listeners.append([ch, nid[0], prio, out, acts])
+                            # one-shot: unsubscribe itself, then call any lifecycle method
+                            acts += ['u~%s~%d' % (ch, lid), 'c~%s' % rng.choice(METHODS)]
+                            break
+            l = {'ch': ch, 'id': lid, 'prio': prio, 'out': out, 'acts': acts, 'arg': prio, 'attr': None,
+                 'deco': False}
+            listeners.append(l)
     # ties only between insensitive listeners, and never when a log listener can fail
+    sensitive = logfail or any('c~' in a or a.startswith('s~log') for l in listeners for a in l['acts'])
     for ch in CHANNELS:
-        group = [l for l in listeners if l[0] == ch]
-        for p in {l[2] for l in group}:
-            tie = [l for l in group if l[2] == p]
-            if len(tie) > 1 and (logfail or any(l[4] or l[3] not in ('ok', 'raise') for l in tie)):
+        group = [l for l in listeners if l['ch'] == ch]
+        for p in {l['prio'] for l in group}:
+            tie = [l for l in group if l['prio'] == p]
+            if len(tie) > 1 and (sensitive or any(l['acts'] or l['out'] not in ('ok', 'raise') for l in tie)):
                 for k, l in enumerate(tie):
-                    l[2] = p + k
+                    l['prio'] = p + k
+    for l in listeners:
+        gen_prio_route(rng, l, l['prio'])
     rng.shuffle(listeners)
-    toks = ['sub:%s:%d:%d:%s:%s' % (l[0], l[1], l[2], l[3], '+'.join(l[4]) or '-') for l in listeners]
+    toks = [sub_token(l) for l in listeners]
     ncalls = rng.randint(1, 6)
+    kinds = ['start', 'stop', 'exit', 'restart', 'graceful', 'pub', 'unsub', 'sub', 'resub',
+             'atexit', 'wait', 'block', 'swc']
+    weights = [25, 20, 14, 6, 8, 14, 7, 6, 8, 5, 4, 6, 3]
     for _ in range(ncalls):
-        k = rng.choices(['start', 'stop', 'exit', 'restart', 'graceful', 'pub', 'unsub', 'sub', 'resub'],
-                        weights=[25, 20, 14, 6, 8, 14, 7, 6, 6])[0]
+        k = rng.choices(kinds, weights=weights)[0]
         if k == 'pub':
-            toks.append('pub:%s' % rng.choice(['c1', 'c2', 'main', 'graceful', 'c7']))
+            toks.append('pub:%s' % rng.choice(['c1', 'c2', 'main', 'graceful', 'c7', 'stop', 'start']))
         elif k == 'unsub':
-            if listeners:
+            if listeners and rng.random() < 0.8:
                 t = rng.choice(listeners)
-                toks.append('unsub:%s:%d' % (t[0], t[1]))
+                toks.append('unsub:%s:%d' % (t['ch'], t['id']))
+            else:   # a listener that was never subscribed / a channel that does not exist
+                toks.append('unsub:%s:%d' % (rng.choice(['c1', 'stop', 'c9']), 900 + rng.randint(0, 3)))
         elif k == 'resub':
-            # same callback again with a new, unique priority: the set is unchanged, the priority is
-            cands = [l for l in listeners if l[0] != 'log']
+            # same callback again: the set is unchanged, the priority is overwritten by whatever the new
+            # call says (argument, else the attribute, else the default)
+            cands = [l for l in listeners if l['ch'] != 'log']
             if cands:
                 t = rng.choice(cands)
                 nid[0] += 1
-                t[2] = rng.choice([1, 300]) + nid[0]
-                toks.append('sub:%s:%d:%d:%s:%s' % (t[0], t[1], t[2], t[3], '+'.join(t[4]) or '-'))
+                others = {l['prio'] for l in listeners if l['ch'] == t['ch'] and l is not t}
+                if rng.random() < 0.3 and 50 not in others:
+                    t['prio'], t['arg'], t['attr'], t['deco'] = 50, None, None, False
+                else:
+                    t['prio'] = rng.choice([1, 300]) + nid[0]
+                    gen_prio_route(rng, t, t['prio'])
+                toks.append(sub_token(t))
         elif k == 'sub':
             nid[0] += 1
-            toks.append('sub:%s:%d:%d:%s:-' % (rng.choice(['start', 'stop', 'exit', 'c1']), 200 + nid[0],
+            toks.append('sub:%s:%d:%d:%s:-' % (rng.choice(['start', 'stop', 'exit', 'c1', 'main']), 200 + nid[0],
                                                200 + nid[0], rng.choice(['ok', 'raise'])))
+        elif k == 'wait':
+            ts = rng.choice([['EXITING'], ['STARTED'], ['STOPPED', 'EXITING'], ['STARTED', 'STOPPED'],
+                             ['STARTING']])
+            plan = [rng.choices(['o', 'k', 'i', 'x0', 'x2'], weights=[8, 1, 1, 1, 1])[0]
+                    for _ in range(rng.choice([0, 0, 1, 3]))]
+            toks.append('wait:%s:%s:%s' % ('+'.join(ts), rng.choice(['main', 'main', 'none', 'c1']),
+                                           '.'.join(plan) or '-'))
+        elif k == 'block':
+            plan = [rng.choices(['o', 'k', 'i', 'x0', 'x2'], weights=[6, 2, 1, 1, 1])[0]
+                    for _ in range(rng.choice([0, 1, 2, 4]))]
+            toks.append('block:%s' % ('.'.join(plan) or '-'))
         else:
             toks.append(k)
     return toks
 
 
+ENUM_OUTS = ['ok', 'raise', 'exit0']
+ENUM_CALLS = ['start', 'stop', 'exit', 'graceful', 'restart']
+
+
+def enum_quick():
+    """Exhaustive: every set of <=2 listeners over the channels start/stop/exit x outcomes ok/raise/SystemExit(0)
+    (two listeners of one channel in both priority orders) x every call sequence of length <=3 over
+    start/stop/exit/graceful/restart."""
+    slots = [(ch, o) for ch in ('start', 'stop', 'exit') for o in ENUM_OUTS]
+    sets = [[]] + [[s] for s in slots]
+    for a in slots:
+        for b in slots:
+            if a[0] == b[0] or slots.index(a) < slots.index(b):
+                sets.append([a, b])
+    seqs = [list(s) for n in (1, 2, 3) for s in itertools.product(ENUM_CALLS, repeat=n)]
+    for ls in sets:
+        toks = ['sub:%s:%d:%d:%s:-' % (ch, k + 1, 10 + 40 * k, o) for k, (ch, o) in enumerate(ls)]
+        for s in seqs:
+            yield toks + s
+
+
 def enum_small():
     """Exhaustive: <=2 listeners on each of start/stop/exit with out in {ok, raise, exit0, kbd},
     distinct priorities, x call sequences of length <=3 over {start, stop, exit, graceful}."""
-    import itertools
     outs = ['ok', 'raise', 'exit0', 'kbd']
     per_channel = [[]] + [[o] for o in outs] + [[a, b] for a in outs for b in ('ok', 'raise')]
     calls = ['start', 'stop', 'exit', 'graceful']
@@ -496,30 +980,83 @@ def enum_small():
             yield toks + s
 
 
+def enum_reentrant():
+    """Exhaustive small scope of re-entrant scripts: two listeners A (priority 10) and B (priority 50) on one
+    channel, A or B performing one re-entrant action, x one or two calls."""
+    acts_for = lambda ch: (['u~%s~2' % ch, 'u~%s~1' % ch, 's~%s~3~5~ok' % ch, 's~%s~3~70~raise' % ch,
+                            's~%s~2~1~ok' % ch, 'p~c2'] +
+                           ['c~%s' % m for m in METHODS if METH_TOP[m] < LEVELS[ch]] +
+                           ['u~%s~1+c~%s' % (ch, m) for m in ('stop', 'exit')])
+    for ch in ('start', 'stop', 'exit', 'graceful', 'main'):
+        calls = {'main': ['pub:main', 'block:-'], 'graceful': ['graceful']}.get(ch, [ch])
+        for who in (1, 2):
+            for act in acts_for(ch):
+                if who == 2 and act.startswith('u~%s~1+' % ch):
+                    act = act.replace('u~%s~1' % ch, 'u~%s~2' % ch)
+                for oa, ob in itertools.product(('ok', 'raise'), repeat=2):
+                    subs = ['sub:%s:1:10:%s:%s' % (ch, oa, act if who == 1 else '-'),
+                            'sub:%s:2:50:%s:%s' % (ch, ob, act if who == 2 else '-'),
+                            'sub:c2:9:50:ok:-']
+                    for c in calls:
+                        for pre in ([], ['start']):
+                            for post in ([], [c], ['exit']):
+                                yield subs + pre + [c] + post
+
+
 # ----------------------------------------------------------------------------------------------
-def check_cases(ctx, cases, compare=True):
+def _real_worker(chunk):
+    return [_slim(run_real(t)) for t in chunk]
+
+
+def _slim(obs):
+    return obs
+
+
+def check_cases(ctx, cases, compare=True, cov=None, procs=1):
+    cases = list(cases)
     model_lines = ctx.model([' '.join(c) for c in cases]) if compare else None
+    if procs > 1 and len(cases) > 2000:
+        n = (len(cases) + procs * 4 - 1) // (procs * 4)
+        chunks = [cases[i:i + n] for i in range(0, len(cases), n)]
+        try:
+            observed = [o for part in common.parallel_map(_real_worker, chunks, procs) for o in part]
+        except Exception as e:
+            raise common.HarnessError('worker pool failed: %r' % (e,))
+    else:
+        observed = None
     for idx, toks in enumerate(cases):
-        obs = run_real(toks)
+        obs = observed[idx] if observed is not None else run_real(toks, cov)
         nontrivial = bool(obs['journal'])
         ctx.case(toks, nontrivial=nontrivial, key=' '.join(toks))
-        for r in obs['results']:
+        flat = [r for rs in obs['results'] for r in rs]
+        for r in flat:
             ctx.count('result:' + (r if isinstance(r, str) else 'fail'))
         ctx.count('final:' + obs['state'])
-        if 'outoffuel' in obs['results']:
-            raise common.HarnessError('generator produced unbounded re-entrancy: %s' % toks)
+        if any(o['lc'] for o in obs['pubs']) or any(obs['lc']):
+            ctx.count('reentrant_lifecycle_call')
+        if any(o['added'] or o['removed'] or o['reprio'] for o in obs['pubs']):
+            ctx.count('membership_changed_during_publish')
+        ctx.count('max_depth:%d' % max([e[4] for e in obs['journal']] or [0]))
+        if 'deep' in flat:
+            ctx.count('discarded:too_deep')
+            continue
         for what, sig in oracle(toks, obs):
             ctx.oracle_fail({'tokens': toks}, what, sig)
         if model_lines is not None:
+            model = canon_model(toks, model_lines[idx])
+            if any('outoffuel' in r for r in model['R']):
+                ctx.count('discarded:model_out_of_fuel')
+                continue
             ctx.compared()
-            real, model = canon_real(obs), canon_model(model_lines[idx])
+            real = canon_real(toks, obs)
+            if model.pop('O') == 'diff':
+                ctx.disagree({'tokens': toks}, real, model, 'first- and second-generation model differ')
             if real != model:
                 diff = [k for k in real if real[k] != model[k]]
                 ctx.disagree({'tokens': toks}, real, model, 'bus observables differ in %s' % diff)
 
 
 def corpus_cases():
-    import os
     d = os.path.join(common.CORPUS, PROPERTY)
     out = []
     if os.path.isdir(d):
@@ -530,37 +1067,57 @@ def corpus_cases():
 
 
 def run(ctx):
+    cov = Coverage()
     # known findings: replay the recorded witnesses first
     for e in ctx.known:
         if e.get('status') == 'known':
-            check_cases(ctx, [e['witness']['tokens']], compare=True)
-    check_cases(ctx, corpus_cases())
+            check_cases(ctx, [e['witness']['tokens']], compare=True, cov=cov)
+    check_cases(ctx, corpus_cases(), cov=cov)
+    unit_checks(ctx, cov)
     n = ctx.budget(2500, 60000)
     cases = [gen_case(ctx.rng, big=(i % 10 == 9)) for i in range(n)]
-    check_cases(ctx, cases)
+    if ctx.quick():
+        check_cases(ctx, cases, cov=cov)
+    else:
+        check_cases(ctx, cases[:3000], cov=cov)
+        check_cases(ctx, cases[3000:], procs=16)
+    missing = cov.missing()
+    ctx.extra['anchored_lines_not_executed'] = missing
+    ctx.extra['anchored_functions_traced'] = sorted(set(cov.codes.values())) if cov.ok else 'sys.monitoring unavailable'
+    small = list(enum_quick()) + list(enum_reentrant())
+    check_cases(ctx, small, procs=16)
+    ctx.extra['exhaustive_small_scope_quick'] = len(small)
     if not ctx.quick():
         small = list(enum_small())
-        check_cases(ctx, small)
+        check_cases(ctx, small, procs=16)
         ctx.extra['exhaustive_small_scope'] = len(small)
 
 
 def search(ctx, around=None):
     """Deeper hunt for an input on which the property itself fails on the real code."""
     cases = [gen_case(ctx.rng, big=(i % 3 == 0)) for i in range(ctx.budget(8000, 40000))]
-    check_cases(ctx, cases, compare=False)
+    check_cases(ctx, cases, compare=False, procs=16)
     if not ctx.oracle_failures:
         small = list(enum_small())
         if ctx.quick():
             small = ctx.rng.sample(small, 25000)
-        check_cases(ctx, small, compare=False)
+        check_cases(ctx, small, compare=False, procs=16)
 
 
 def replay(ctx, case):
     toks = case['tokens']
     obs = run_real(toks)
     print('tokens :', ' '.join(toks))
-    print('impl   :', json.dumps(canon_real(obs)))
+    print('impl   :', json.dumps(canon_real(toks, obs)))
     m = ctx.model([' '.join(toks)])
     if m:
-        print('model  :', json.dumps(canon_model(m[0])))
+        print('model  :', json.dumps(canon_model(toks, m[0])))
     check_cases(ctx, [toks])
+
+
+def unit_checks(ctx, cov=None):
+    pass
+
+
+def tables(ctx):
+    return {}
